@@ -92,10 +92,15 @@ prop("C13", "proof",
      "and CL1024, and a sweep of every negative class the property lists. PARTIAL: 'other attribute vector / other bases / other key is rejected' rests on the strong RSA "
      "assumption (sweep + correspondence only).", "DESIGN.md §10 C13", NOTE_CL)
 prop("C14", "proof",
-     "Proved: gating (blind_sign returns only when verify_proof returned true; a false proof is a panic = refusal), the unblinded signature is (e, r + r', v), completeness of the "
-     "two-secret sigma protocol carrying each hidden attribute and r. PARTIAL: completeness of the whole flow for every hidden set U (F6 repaired by 0fe18d8) and rejection of "
-     "mismatching / edited proofs are decided by correspondence (proofs equal integer for integer with logged draws; decisions equal on every mutated instance) + sweep over ALL "
-     "non-empty U for n <= 3 (thorough 5), with and without trusted commitment, update_signature, field edits. Known finding F9 (unused randomness leaves) reported, not hidden.",
+     "Proved end to end: blind_issuance_valid -- for every attribute vector, every strictly increasing list U of hidden positions and every logged randomness (random_bits "
+     "values >= 0), whatever blind_sign returns for the honest holder's commitment and the revealed attributes at the complementary positions unblinds to a signature that "
+     "verify_multiattr accepts on the WHOLE vector (honest_extension_commits_to_all: hidden product * revealed product = product over all positions, F6 repaired by 0fe18d8; "
+     "blind_issue_complete: e-th root under the key premises good_key, which the harness checks on every run); zkpok_complete / honest_issuance_proof_accepted -- the whole "
+     "issuance proof the holder generates (trusted-party proof, multi-secret proof, per-attribute opening and range proofs, opening and range proof of r) is accepted for every U "
+     "(attribute count other than one); gating (blind_sign returns only when verify_proof returned true; a false proof is a panic = refusal); consumes: every generator only "
+     "takes draws from the front of the log. PARTIAL: rejection of mismatching / edited proofs is decided by correspondence (proofs equal integer for integer with logged draws; "
+     "decisions equal on every mutated instance) + sweep over ALL non-empty U for n <= 3 (thorough 5), with and without trusted commitment, update_signature, field edits. "
+     "Known finding F9 (unused randomness leaves) reported, not hidden.",
      "DESIGN.md §10 C14", NOTE_CL)
 prop("C15", "proof",
      "Proved: spok_complete -- COMPLETENESS of the whole proof of knowledge: for every modulus, every number of attributes, every strictly increasing list U of hidden positions, "
